@@ -292,6 +292,10 @@ class PrettyPrinter:
         # symbol needs special treatment
         if key == "symbol" and level > 0:
             return False
+        # simple values never need an END, even if they share a name with a complex
+        # type e.g. MAP SYMBOLSET "symbols.sym", QUERYMAP STYLE HILITE, SCALEBAR STYLE 0
+        if not isinstance(composite[key], (dict, list, tuple)):
+            return False
         return (
             key in COMPLEX_TYPES
             or self.is_composite(key)
